@@ -6,8 +6,8 @@ from concurrent.futures import ThreadPoolExecutor
 from vlib import NCPU, Inconclusive, write_evidence, known_match, save_replay, write_ndjson, read_ndjson
 
 CLASSES = ["absent", "valid_s1", "valid_s2", "wrongsig", "alg_none", "alg_rs256", "expired", "future_near", "future_far",
-           "garbage", "payload_tampered", "header_tampered", "empty_key"]
-CORE = ["absent", "valid_s1", "valid_s2", "wrongsig", "expired", "empty_key", "future_near", "alg_none"]
+           "garbage", "payload_tampered", "header_tampered", "empty_key", "just_expired", "expires_soon"]
+CORE = ["absent", "valid_s1", "valid_s2", "wrongsig", "expired", "empty_key", "future_near", "alg_none", "just_expired"]
 
 
 def cfg_classes(cs):
@@ -126,7 +126,7 @@ def run(work, tier, replay=None):
     write_evidence(work, "model_checking", coverage,
                    ["token strings inside a class are minted by the harness with golang-jwt (the library hagall-common uses): cryptographic validity is the library's; 'every mutation of a valid token' is sampled per class",
                     "the mux is built in the harness with the same shape as cmd/main.go ('/' behind HandleWithCORS(websocket.Server{Handshake: VerifyAuthToken}), '/smoke-test' behind VerifyAuthTokenHandler); cmd/main.go itself is not executed",
-                    "future_near = issued 4 s in the future (inside the 10 s leeway of hagall-common)"],
+                    "future_near = issued 4 s in the future (inside the 10 s leeway of hagall-common); just_expired = expired 3 s ago (the library has no leeway on exp), expires_soon = 45 s left"],
                    violations=len(violations))
     for kf in known:
         print("KNOWN-FINDING: property=C15 %s" % kf.get("what", kf["id"]))
